@@ -40,6 +40,9 @@ struct Cfg {
     /// `ln=1`: append `@L=` — whether the line the sink was last told (`set_current_line`) equals the
     /// line of the token being processed at every other sink call
     ln: bool,
+    /// `sh=1`: the sink's `attach_declarative_shadow` succeeds (a provided trait method a DOM with shadow roots
+    /// overrides; RcDom inherits the default `false`)
+    sh: bool,
 }
 
 fn parse_bool(s: &str) -> Option<bool> {
@@ -56,6 +59,7 @@ fn parse_opts(s: &str) -> Option<Cfg> {
         cs: None,
         tx: false,
         ln: false,
+        sh: false,
     };
     if s == "-" {
         return Some(c);
@@ -73,6 +77,7 @@ fn parse_opts(s: &str) -> Option<Cfg> {
             ["cs", v] => c.cs = Some(parse_bool(v)?),
             ["tx", v] => c.tx = parse_bool(v)?,
             ["ln", v] => c.ln = parse_bool(v)?,
+            ["sh", v] => c.sh = parse_bool(v)?,
             _ => return None,
         }
     }
@@ -665,6 +670,7 @@ fn run1(fields: &[&str]) -> String {
     let (Some(cfg), Some(ctx)) = (parse_opts(opts), parse_ctx(ctx)) else {
         return "bad-case".into();
     };
+    crate::sinkops::SHADOW_ATTACH_OK.store(cfg.sh, std::sync::atomic::Ordering::SeqCst);
     match *mode {
         "tok" => match parse_tokens(payload) {
             Some(toks) => guarded(|| run_tok(&cfg, &ctx, toks)),
